@@ -1,7 +1,143 @@
-import MitmVerif.Model.C05
+/-
+  C05 — HTTP/2 streams are isolated and correctly mapped: the property theorems.
+
+  All of them are statements about EVERY state `σ` the model of `Http2Client` can reach (`Reach σ`): any interleaving
+  of client events (per stream: the request head first and once, as `HttpStream` emits them — `Good`), of segments
+  reported by hyper-h2 (any list of events: SETTINGS changing MAX_CONCURRENT_STREAMS / INITIAL_WINDOW_SIZE / the
+  frame size, WINDOW_UPDATE, responses, RST_STREAM, GOAWAY, protocol errors) and of the connection closing.
+  The invariant that carries them (`Inv`, `reach_inv`) is proved in Lemmas/C05_Map.lean by induction over the
+  history, through every iteration of the resume loop.
+-/
+import MitmVerif.Lemmas.C05_Map
 namespace MitmVerif.Props.C05
 open MitmVerif MitmVerif.C05
 
-theorem placeholder : True := trivial
+/-- `our_stream_id` and `their_stream_id` are inverse to each other -/
+theorem id_maps_inverse (σ : St) (h : Reach σ) (t o : Nat) :
+    alookup t σ.ours = some o ↔ alookup o σ.theirs = some t :=
+  ⟨(reach_inv σ h).map.fwd t o, (reach_inv σ h).map.bwd o t⟩
+
+/-- upstream ids are handed out once: two client streams never share one -/
+theorem id_maps_injective (σ : St) (h : Reach σ) (t1 t2 o : Nat)
+    (h1 : alookup t1 σ.ours = some o) (h2 : alookup t2 σ.ours = some o) : t1 = t2 := by
+  have a := (reach_inv σ h).map.fwd t1 o h1
+  have b := (reach_inv σ h).map.fwd t2 o h2
+  rw [a] at b; exact Option.some.inj b
+
+/-- Every event the HTTP layer handed over for a client stream is — in the order it was handed over — either passed on
+    exactly once, or still waiting in the queue; and whatever was passed on went to the upstream stream that belongs
+    to this client stream. -/
+theorem no_stream_lost_or_duplicated (σ : St) (h : Reach σ) (hc : σ.closed = false) :
+    (∀ t, fwOf t σ ++ qOf t σ = evsOf t σ.sub) ∧ (∀ e ∈ σ.fw, alookup e.1 σ.ours = some e.2.1) := by
+  have q := (reach_inv σ h).live hc
+  refine ⟨fun t => ?_, q.fw⟩
+  have := q.cons t
+  rw [q.st] at this
+  simpa [evsOf] using this
+
+/-- … and when the connection goes away, every stream still waiting for a slot is failed (not forgotten) -/
+theorem no_stream_lost_on_close (σ : St) (hc : σ.closed = false) :
+    ∀ t ∈ qkeys σ, (t, UpKind.err, none) ∈ (σ.step .connClosed).up := by
+  intro t ht
+  simp only [St.step]
+  rw [if_neg (by rw [hc]; simp)]
+  have hq : σ.closeConnection.queue = σ.queue := by
+    have : ∀ (l : List (Nat × Bool)) (s : St), (l.foldl (fun σ p => σ.upward p.1 .err) s).queue = s.queue := by
+      intro l
+      induction l with
+      | nil => intro s; rfl
+      | cons p rest ih =>
+        intro s
+        simp only [List.foldl_cons]
+        rw [ih]
+        unfold St.upward; split <;> rfl
+    simp only [St.closeConnection]
+    exact this σ.ms σ
+  simp only [St.failQueued, hq]
+  apply List.mem_append_right
+  simp only [qkeys, List.mem_map] at ht ⊢
+  obtain ⟨p, hp, rfl⟩ := ht
+  exact ⟨p, hp, rfl⟩
+
+/-- Streams are opened in the order in which they arrived: the streams already opened, followed by the streams in
+    the queue in queue order, are exactly the arrival order (`arr` records a client stream id when its first event is
+    handed over). -/
+theorem queue_fifo (σ : St) (h : Reach σ) (hc : σ.closed = false) : opened σ ++ qkeys σ = σ.arr :=
+  ((reach_inv σ h).live hc).arr
+
+/-- After every call the resume loop has run to completion, and a stream is left waiting only if there is no free
+    slot (`open_outbound_streams >= limit`). -/
+theorem queue_nonempty_implies_no_capacity (σ : St) (h : Reach σ) (hc : σ.closed = false) :
+    σ.stack = [] ∧ (σ.queue ≠ [] → σ.noFree = true) := by
+  have q := (reach_inv σ h).live hc
+  refine ⟨q.st, fun hne => ?_⟩
+  rcases q.cap with h1 | h1
+  · exact absurd h1 hne
+  · exact h1
+
+/-- An upstream stream is only ever opened while fewer streams are open than the limit in force at that moment
+    (the server's MAX_CONCURRENT_STREAMS once its SETTINGS have arrived, the provisional 10 before). -/
+theorem open_le_limit (σ : St) (h : Reach σ) (hc : σ.closed = false) :
+    ∀ a ∈ σ.allocs, a.2.1 < a.2.2 :=
+  ((reach_inv σ h).live hc).al
+
+/-- Every response event and every reset passed up to the HTTP layer carries the client stream id whose upstream
+    stream it arrived on. -/
+theorem response_routed (σ : St) (h : Reach σ) :
+    ∀ u ∈ σ.up, ∀ o, u.2.2 = some o → alookup u.1 σ.ours = some o ∧ alookup o σ.theirs = some u.1 := by
+  intro u hu o ho
+  have inv := reach_inv σ h
+  have := inv.up u hu o ho
+  exact ⟨this, inv.map.fwd _ _ this⟩
+
+/-- `HttpLayer.streams`: an event is delivered to the stream object registered under its own id, or dropped -/
+theorem route_own_stream {α : Type} (streams : List (Nat × α)) (sid : Nat) (s : α) (h : route streams sid = some s) :
+    (sid, s) ∈ streams := alookup_mem sid s streams h
+
+/-- BufferedH2Connection: for every stream, the bytes written to the wire followed by the bytes still buffered are
+    exactly what was there before followed by the bytes submitted now (whatever the windows, the frame size and the
+    state of the other streams); flushing a stream that may still send — after a WINDOW_UPDATE, a SETTINGS change or
+    from the round robin over all buffers — moves bytes from the front of its buffer to the wire and changes nothing
+    else. -/
+theorem buffered_bytes_conserved (c : Conn) (s sid : Nat) (d : Bytes) (fin : Bool) :
+    (c.sendData s d fin).held sid = c.held sid ++ (if s = sid then d else [])
+    ∧ (∀ f w sent, (Conn.flushLoop f c s w sent).1.held sid = c.held sid)
+    ∧ ((c.liveS s = true ∨ s ≠ sid) → (c.streamWindowUpdated s).1.held sid = c.held sid) :=
+  ⟨held_sendData c s sid d fin, fun f w sent => held_flushLoop f c s sid w sent, held_streamWindowUpdated c s sid⟩
+
+/-- trailers wait for the buffered data of their stream, and the end of the stream is not requested twice -/
+theorem trailers_after_data (c : Conn) (s : Nat) (hb : c.buf s ≠ []) :
+    (c.sendTrailers s).out = c.out ∧ (c.sendTrailers s).trl.contains s = true
+    ∧ (c.sendTrailers s).endStream s = c.sendTrailers s := by
+  have hne : (c.buf s).isEmpty = false := by cases h : c.buf s <;> simp_all
+  have h1 : c.sendTrailers s = { c with trl := if c.trl.contains s then c.trl else c.trl ++ [s] } := by
+    simp [Conn.sendTrailers, hne]
+  have h2 : (c.sendTrailers s).trl.contains s = true := by
+    rw [h1]
+    show (if c.trl.contains s = true then c.trl else c.trl ++ [s]).contains s = true
+    split
+    · assumption
+    · simp
+  refine ⟨by rw [h1], h2, ?_⟩
+  unfold Conn.endStream
+  rw [if_pos h2]
+
+/-! ### the hypotheses are satisfiable, the model does queue, resume in order and fail queued streams -/
+
+def ex1 : St := ((St.init.step (.client 1 (.hdr true))).step (.server [.settings (some 1) none none])).step (.client 3 (.hdr true))
+def ex2 : St := (ex1.step (.client 5 (.hdr true))).step (.client 3 .eom)
+
+example : Reach ex2 := by
+  refine Reach.client _ _ _ (Reach.client _ _ _ (Reach.client _ _ _ (Reach.server _ _ (Reach.client _ _ _ Reach.init ?_)) ?_) ?_) ?_
+  all_goals (unfold Good; decide)
+
+example : ex2.ours = [(1, 1)] ∧ qkeys ex2 = [3, 5] ∧ ex2.noFree = true ∧ ex2.closed = false := by decide
+/-- the response ends stream 1: both queued streams are opened, in arrival order, each on its own upstream id -/
+example : (ex2.step (.server [.settings (some 5) none none, .respHdr 1 true true, .ended 1])).ours = [(1, 1), (3, 3), (5, 5)] := by
+  decide
+example : (ex2.step (.server [.settings (some 5) none none, .respHdr 1 true true, .ended 1])).conn.out =
+    [.hdr 1 true, .hdr 3 true, .hdr 5 true] := by decide
+/-- the connection closes: the open stream and both queued streams are failed -/
+example : (ex2.step .connClosed).up = [(1, .err, some 1), (3, .err, none), (5, .err, none)] := by decide
 
 end MitmVerif.Props.C05
